@@ -1899,7 +1899,10 @@ BTree_byValue(BTree *self, PyObject *omin)
 
     COPY_VALUE_FROM_ARG(min, omin, copied);
     UNLESS(copied)
+    {
+        PER_UNUSE(self);
         return NULL;
+    }
 
     UNLESS (r=PyList_New(0))
         goto err;
